@@ -807,11 +807,14 @@ pub fn run(run: &'static Run) {
          Oracle: full packs: stored pack == stream, .idx byte-identical to `git index-pack`; thin packs: `git index-pack` of the stored pack succeeds and yields the byte-identical .idx, object set == `git index-pack --fix-thin` in a copy of the receiver; \
          directory holds exactly pack-<trailer>.{{pack,idx,keep}}; every object reads back (Bundle::find) with git's type and bytes. \
          Faults (sub `truncate`, `flip`): EVERY proper prefix and every single-byte XOR with masks {} at EVERY offset of 3 small packs (no-delta full, delta full, thin), Mode::Verify, thread_limit {} => must return Err and leave no .pack/.idx/.keep. \
-         non-trivial = pack with at least one delta / fault beyond the 12-byte header",
+         Sub `thin-handmade`: hand-assembled thin packs [A blob][R ref-delta -> external X][O ofs-delta -> A | R][Z blob] (stored deflate blocks, exact lengths): X content length {} (length of the injected entry incl. the value where injected base and shrunk ref-delta header cancel out), \
+         distance O->A as received in {{b-3,b-2,b-1,b,b+1,b-60}} for b in {{128,16512}} (ofs-delta header grows across the varint boundary vs controls) and O based on R; write_to_directory thread_limit {{1,2,4}} + write_to_directory_eagerly {{2}}; same oracle as thin packs plus git must read the 5 intended objects. \
+         All written bundles must also pass Bundle::verify_integrity. non-trivial = pack with at least one delta / fault beyond the 12-byte header",
         if run.quick() { "all <= 2 commits + every fifth 3-commit one of the 26" } else { "all 26" },
         if run.quick() { " (quick: AsIs/Restore only through write_to_directory)" } else { "" },
         if run.quick() { "{0x01,0x80}" } else { "{0x01,0x02,0x04,0x08,0x10,0x20,0x40,0x80,0xff}" },
         if run.quick() { "{1}" } else { "{1,3}" },
+        if run.quick() { "{0,8,9,10,11,60,300}" } else { "{0..=24,40,60,100,127,128,129,300,2000,16300,16500,20000}" },
     ));
     run.assume("git 2.39.5 (pack-objects, index-pack [--fix-thin], show-index, cat-file --batch) is generator and oracle");
     run.assume("streams use --delta-base-offset, i.e. ref-deltas occur only for bases outside the pack: gitoxide documents that in-pack ref-deltas are not supported by write_data_iter_to_stream / the thin-pack resolver (it always negotiates ofs-delta)");
@@ -886,6 +889,7 @@ pub fn run(run: &'static Run) {
     run.cov("handmade_net_zero_shift", hs.net_zero.load(Relaxed));
     run.cov("handmade_net_zero_shift_with_ofs_delta_on_the_ref_delta", hs.net_zero_on_r.load(Relaxed));
     run.require("hand-assembled packs made an ofs-delta header grow at 128 and at 16512", hs.crossed_128.load(Relaxed) > 0 && hs.crossed_16512.load(Relaxed) > 0);
+    run.require("a hand-assembled pack with zero net shift and an ofs-delta based on the ref-delta was indexed", hs.net_zero_on_r.load(Relaxed) > 0);
 
     // fault targets: smallest of each shape
     let pick = |f: &dyn Fn(&PackFx) -> bool| fxs.iter().filter(|p| f(p)).min_by_key(|p| p.bytes.len()).map(|p| p.name.clone());
